@@ -124,6 +124,14 @@ func (propC11) Gen(seed uint64, tier string, idx int) *Plan {
 	p.Net.MaxSegment = 1460
 	p.Stack = defaultStack(r)
 	p.Stack.ConnTimeout = time.Second
+	if r.Chance(500) {
+		// the provider scope must hold under every model-routing configuration, in particular the
+		// ones that widen the candidate set (fallback all, refresh on miss)
+		p.Stack.Strategy = pickS(r, []string{"strict", "optimistic", "discovery"})
+		p.Stack.Fallback = pickS(r, []string{"compatible_only", "none", "all"})
+		p.Stack.RefreshOnMiss = r.Chance(500)
+		p.Stack.Unified = r.Chance(700)
+	}
 	// prefix walks the whole list; the rest is seeded
 	prefix := t.prefixes[gridCell(seed, tier, idx, len(t.prefixes))]
 	if tier == "thorough" {
@@ -149,11 +157,15 @@ func (propC11) Gen(seed uint64, tier string, idx int) *Plan {
 	if r.Chance(500) {
 		down = 0
 	}
-	p.Sub = fmt.Sprintf("%s/[%s]/down=%0*b", prefix, strings.Join(types, ","), nEp, down)
+	p.Sub = fmt.Sprintf("%s/[%s]/down=%0*b/%s-%s-%v", prefix, strings.Join(types, ","), nEp, down, p.Stack.Strategy, p.Stack.Fallback, p.Stack.RefreshOnMiss)
 	for i := 1; i <= nEp; i++ {
 		ep := endpoint(i, types[i-1], 100-10*r.Pick(3))
 		ep.Models = []string{"m1", fmt.Sprintf("only-b%d", i)}
 		ep.Default = Resp{Kind: "llm", Status: 200}
+		if r.Chance(150) {
+			// first proxied exchange dies at connection level: failover must stay inside the provider
+			ep.Seq = []Resp{{Kind: "llm", Status: 200, Fault: &Fault{At: "accept", Kind: "rst"}}}
+		}
 		if down&(1<<(i-1)) != 0 {
 			ep.InitialStatus = pickS(r, []string{"offline", "unhealthy"})
 			ep.HostMode = []Phase{{From: Always, Mode: "refuse"}}
@@ -174,10 +186,29 @@ func (propC11) Gen(seed uint64, tier string, idx int) *Plan {
 			model := "m1"
 			if r.Chance(200) {
 				model = ""
+			} else if r.Chance(250) {
+				model = pickS(r, []string{"no-such-model", "only-b1", "only-b2", "M1"})
 			}
 			op.Body = BodySpec{Kind: "json", N: 120, Model: model}
 		}
 		p.Ops = append(p.Ops, op)
+	}
+	if r.Chance(400) {
+		// overlapping requests on other providers' prefixes, with the pooled-object hand-over made
+		// adversarial (LIFO pool + a yield right after every Put): whatever a request-scoped helper
+		// borrows from a pool must not leak one request's candidates into another's
+		p.Yields = map[string]int64{"pool.put": int64(2 * time.Millisecond)}
+		n := len(p.Ops)
+		for i := 0; i < n; i++ {
+			base := p.Ops[i]
+			if base.Method != "POST" {
+				continue
+			}
+			other := t.prefixes[r.Pick(len(t.prefixes))]
+			twin := ClientOp{ID: len(p.Ops) + 1, At: base.At + r.Dur(0, 3*time.Millisecond), Method: "POST", Deadline: 15 * time.Second,
+				Path: "/olla/" + other + pickS(r, c11Paths), Body: BodySpec{Kind: "json", N: 120, Model: "m1"}}
+			p.Ops = append(p.Ops, twin)
+		}
 	}
 	p.Deadline = 40 * time.Second
 	p.Settle = 100 * time.Millisecond
@@ -251,7 +282,8 @@ func (propC11) Check(r *Run) []Violation {
 			if c.Status >= 200 && c.Status < 300 {
 				add("C11/success-without-provider-endpoint", "op %d %s got status %d although no healthy endpoint of that provider exists", c.OpID, op.Path, c.Status)
 			}
-		} else if len(exs) == 0 && c.Status >= 400 && op.Body.Model != "" {
+		} else if len(exs) == 0 && c.Status >= 400 && op.Body.Model == "m1" && c11Stable(r, allowedHealthy, c) {
+			// (a request whose attempts were killed by the simulator has exchanges, so it never gets here)
 			add("C11/not-served-although-provider-endpoint-healthy", "op %d %s got status %d (%.120q); healthy endpoints of that provider: %v", c.OpID, op.Path, c.Status, c.Body, allowedHealthy)
 		}
 	}
@@ -262,6 +294,23 @@ func (propC11) Check(r *Run) []Violation {
 func (t *c11Truth) native(typ string) bool {
 	for _, c := range t.canonical(typ) {
 		if p := t.profiles[c]; p != nil && p.API.AnthropicSupport != nil && p.API.AnthropicSupport.Enabled {
+			return true
+		}
+	}
+	return false
+}
+
+// c11Stable: at least one of the endpoints stayed untouched in the repository for the whole life of
+// the request (another request's failed attempt may take an endpoint out of rotation meanwhile).
+func c11Stable(r *Run, names []string, c *ClientResult) bool {
+	for _, n := range names {
+		touched := false
+		for _, w := range r.Stack.Rec.Repo {
+			if w.Name == n && w.At >= c.StartAt && w.At <= c.DoneAt {
+				touched = true
+			}
+		}
+		if !touched {
 			return true
 		}
 	}
